@@ -454,28 +454,25 @@ func (c *Container) RegisteredWebServices() []*WebService {
 
 // computeAllowedMethods returns a list of HTTP methods that are valid for a Request
 func (c *Container) computeAllowedMethods(req *Request) []string {
-	// Go through all RegisteredWebServices() and all its Routes to collect the options
+	// Collect the methods of all Routes for which the router does not answer 404 or 405 on this URL ;
+	// the router decides (not a second path matcher) such that the answer is the same as for a real request.
 	methods := []string{}
-	requestPath := req.Request.URL.Path
 	webServices := c.RegisteredWebServices()
-	// requests for this URL are only dispatched to the WebService the router selects for it
-	selected, _, _ := c.router.SelectRoute(webServices, req.Request)
+	seen := map[string]bool{}
 	for _, ws := range webServices {
-		if selected != nil && ws != selected {
-			continue
-		}
-		matches := ws.pathExpr.Matcher.FindStringSubmatch(requestPath)
-		if matches != nil {
-			finalMatch := matches[len(matches)-1]
-			for _, rt := range ws.Routes() {
-				matches := rt.pathExpr.Matcher.FindStringSubmatch(finalMatch)
-				if matches != nil {
-					lastMatch := matches[len(matches)-1]
-					if lastMatch == "" || lastMatch == "/" { // do not include if value is neither empty nor ‘/’.
-						methods = append(methods, rt.Method)
-					}
-				}
+		for _, rt := range ws.Routes() {
+			if seen[rt.Method] {
+				continue
 			}
+			seen[rt.Method] = true
+			probe := new(http.Request)
+			*probe = *req.Request
+			probe.Method = rt.Method
+			_, _, err := c.router.SelectRoute(webServices, probe)
+			if serr, ok := err.(ServiceError); ok && (serr.Code == http.StatusNotFound || serr.Code == http.StatusMethodNotAllowed) {
+				continue
+			}
+			methods = append(methods, rt.Method)
 		}
 	}
 	// methods = append(methods, "OPTIONS")  not sure about this
